@@ -4,6 +4,10 @@
 package afpacket
 
 import (
+	"sync"
+	"syscall"
+	"time"
+
 	"github.com/google/gopacket"
 	afp "github.com/google/gopacket/afpacket"
 	"github.com/google/gopacket/layers"
@@ -12,16 +16,33 @@ import (
 	"golang.org/x/net/bpf"
 )
 
+// pollTimeout bounds how long a read sits inside the handle, so that Close (and with it
+// the end of the scan) never has to wait longer than this for a reader to leave
+const pollTimeout = 100 * time.Millisecond
+
 type Source struct {
 	handle   *afp.TPacket
 	linkType layers.LinkType
+
+	// Closing the handle unmaps the packet ring and releases the descriptor:
+	// it must not happen while a reader or a writer is inside the handle
+	mu     sync.RWMutex
+	closed bool
 }
+
+// timeoutError is returned when no packet arrived within pollTimeout,
+// the receiver treats it as a temporary error and reads again
+type timeoutError struct{}
+
+func (timeoutError) Error() string   { return "packet poll timeout expired" }
+func (timeoutError) Timeout() bool   { return true }
+func (timeoutError) Temporary() bool { return true }
 
 // Assert that AfPacketSource conforms to the packet.ReadWriter interface
 var _ packet.ReadWriter = (*Source)(nil)
 
 func NewPacketSource(iface string, vpnMode bool) (*Source, error) {
-	handle, err := afp.NewTPacket(afp.SocketRaw, afp.OptInterface(iface))
+	handle, err := afp.NewTPacket(afp.SocketRaw, afp.OptInterface(iface), afp.OptPollTimeout(pollTimeout))
 	if err != nil {
 		return nil, err
 	}
@@ -29,7 +50,7 @@ func NewPacketSource(iface string, vpnMode bool) (*Source, error) {
 	if vpnMode {
 		linkType = layers.LinkTypeIPv4
 	}
-	return &Source{handle, linkType}, nil
+	return &Source{handle: handle, linkType: linkType}, nil
 }
 
 // maxPacketLength is the maximum size of packets to capture in bytes.
@@ -54,14 +75,35 @@ func (s *Source) SetBPFFilter(bpfFilter string, maxPacketLength int) error {
 }
 
 func (s *Source) Close() {
+	s.mu.Lock()
+	defer s.mu.Unlock()
+	if s.closed {
+		return
+	}
+	s.closed = true
 	s.handle.Close()
 }
 
+// ReadPacketData returns a copy of the next packet: the ring the packet lives in
+// is unmapped by Close, which may happen while the packet is still being processed
 func (s *Source) ReadPacketData() ([]byte, *gopacket.CaptureInfo, error) {
-	data, ci, err := s.handle.ZeroCopyReadPacketData()
+	s.mu.RLock()
+	defer s.mu.RUnlock()
+	if s.closed {
+		return nil, nil, syscall.EBADF
+	}
+	data, ci, err := s.handle.ReadPacketData()
+	if err == afp.ErrTimeout {
+		return nil, nil, timeoutError{}
+	}
 	return data, &ci, err
 }
 
 func (s *Source) WritePacketData(pkt []byte) error {
+	s.mu.RLock()
+	defer s.mu.RUnlock()
+	if s.closed {
+		return syscall.EBADF
+	}
 	return s.handle.WritePacketData(pkt)
 }
